@@ -391,7 +391,7 @@ Section Model.
   Definition count_safe (s : state) (o : op) : bool :=
     match o with
     | SetFix n _ _ true => unfix_safe s n
-    | RenameVar _ _ _ => false
+    | RenameVar _ _ _ | RemoveVar _ => false
     | _ => true
     end.
   Fixpoint hist_ok (safe : state -> op -> bool) (s : state) (h : list op) : bool :=
@@ -438,6 +438,50 @@ End Model.
 
 Arguments state : clear implicits.
 Arguments op : clear implicits.
+
+(* ---- executable form of the hypotheses of the polar/Cartesian theorems (soundness:
+   polar_safe_sound in VarsManager_proofs.v) ---- *)
+Section FCB.
+  Context {V : Type}.
+  Definition group_of_b (n : name) (s : state V) : list name :=
+    match find_group n (same s) with Some g => g | None => [] end.
+  Definition cell_is (s : state V) (x : name) (c : Z) : bool :=
+    match dget x (vars s) with Some c' => Z.eqb c' c | None => false end.
+  Definition fc_pair_ok (s : state V) (n : name) (fn : bool) (cr ci : Z) (m : name) : bool :=
+    if String.eqb m n then true else
+    match dget m (cplx s) with
+    | None => true
+    | Some fm =>
+      if smem m (group_of_b n s)
+      then cell_is s (nr m) cr && cell_is s (ni m) ci && Bool.eqb fm fn
+      else negb (cell_is s (nr m) cr) && negb (cell_is s (nr m) ci) &&
+           negb (cell_is s (ni m) cr) && negb (cell_is s (ni m) ci)
+    end.
+  Definition flags_consistentb (s : state V) : bool :=
+    forallb (fun nf =>
+      let n := fst nf in
+      match dget n (cplx s), dget (nr n) (vars s), dget (ni n) (vars s) with
+      | Some fn, Some cr, Some ci => negb (Z.eqb cr ci) && forallb (fun mf => fc_pair_ok s n fn cr ci (fst mf)) (cplx s)
+      | _, _, _ => true
+      end) (cplx s).
+  Fixpoint names_eqb0 (a b : list name) : bool :=
+    match a, b with
+    | [], [] => true
+    | x :: a', y :: b' => String.eqb x y && names_eqb0 a' b'
+    | _, _ => false
+    end.
+  Definition groups_closedb (s : state V) : bool :=
+    forallb (fun nf =>
+      forallb (fun m => dmem m (cplx s) && names_eqb0 (group_of_b m s) (group_of_b (fst nf) s))
+              (group_of_b (fst nf) s)) (cplx s).
+  Definition polar_safe (s : state V) : bool := flags_consistentb s && groups_closedb s.
+  (* every state along the history satisfies [inv] and every operation is [safe] *)
+  Fixpoint hist_ok_inv (safe : state V -> op V -> bool) (inv : state V -> bool) (s : state V) (h : list (op V)) : bool :=
+    match h with
+    | [] => inv s
+    | o :: t => inv s && safe s o && hist_ok_inv safe inv (step s o) t
+    end.
+End FCB.
 
 (* ------------------------------------------------------------------------------------------
    Evaluation helpers for the correspondence (V = Q: floats as exact rationals).
@@ -509,7 +553,8 @@ Fixpoint first_bad_from (s : state Q) (k : Z) (h : list (op Q * obs)) : Z * Z :=
 Definition first_bad (h : list (op Q * obs)) : Z * Z := first_bad_from init 0 h.
 
 (* the stream classification used by the harness, decided by the model itself *)
-Definition clean_hist (h : list (op Q * obs)) : bool := hist_ok tie_safe init (map fst h).
+Definition clean_hist (h : list (op Q * obs)) : bool :=
+  hist_ok tie_safe init (map fst h) && hist_ok_inv (fun _ _ => true) polar_safe init (map fst h).
 (* one boolean per generated history: the model reproduces every observation AND classifies the
    history as the harness stream claims (clean / known-finding pattern) *)
 Definition check_clean (h : list (op Q * obs)) : bool := check_hist h && clean_hist h.
